@@ -25,6 +25,10 @@ func BuildReport(resultPtr *rego.ResultSet, validationConfig c.ValidationConfigu
 	violations := m["violation"].([]any)
 	warnings := m["warning"].([]any)
 	infos := m["info"].([]any)
+	// custom rego (rego_extensions) can add arbitrary values to the result sets: only objects are validation results
+	if !allObjects(violations) || !allObjects(warnings) || !allObjects(infos) {
+		return "", errors.New("the evaluation returned a value that is not a validation result (check the rego_extensions of the profile)")
+	}
 	results := buildResults(violations, warnings, infos)
 	conforms := len(violations) == 0
 
@@ -32,6 +36,15 @@ func BuildReport(resultPtr *rego.ResultSet, validationConfig c.ValidationConfigu
 	reportNode := ValidationReportNode(profileName, results, conforms, validationConfig, reportConfig)
 	instance := DialectInstance(&reportNode, &context)
 	return Encode(instance), nil
+}
+
+func allObjects(results []any) bool {
+	for _, r := range results {
+		if m, ok := r.(types.ObjectMap); !ok || m == nil {
+			return false
+		}
+	}
+	return true
 }
 
 func buildResults(violations []any, warnings []any, infos []any) []any {
